@@ -14,11 +14,11 @@ from .c03 import SAFE_CASTS
 ID = 'C19'
 LEVEL = 'fault_enumeration'
 LEVEL_TEXT = ('fault enumeration: a fault-free run yields the I/O event list, HDF5 read count and line count of the write; then '
-              'open/write/close errors are injected at every I/O event (thorough; seeded sample in quick), read errors at seeded '
+              'open/write/close errors are injected at every I/O event (thorough, stratified to 400 plans per case when a run has more; seeded sample in quick), read errors at seeded '
               'reads and interrupts at seeded lines, so the write is abandoned after 0..all chunks; buffer checksums around each write')
 LEVEL_NOTE = ('trusted: harness keeps the only references to the caller buffers and checksums their base memory (guards included); '
               'read-only arrays are part of the workload (an in-place write would raise - not forbidden by this property)')
-TIERS = {'quick': {'cases': 1400, 'wall': 45, 'faults_per_case': 6}, 'thorough': {'cases': 100000, 'wall': 840, 'faults_per_case': 10 ** 6}}
+TIERS = {'quick': {'cases': 1400, 'wall': 45, 'faults_per_case': 6}, 'thorough': {'cases': 100000, 'wall': 840, 'faults_per_case': 400}}
 RULE = ('case = seeded frames supplied inline / dict / structured array (also as a view into a larger buffer) / HDF5, with casts, '
         'windows and input chunk sizes, written fault-free and once per enumerated fault; non-trivial = a fault fired and the write '
         'was abandoned, or the source is a zero-copy view; distinct = case digest')
@@ -110,13 +110,16 @@ def check_case(case, ex):
     if Pm['source'] == 'h5':
         for p in pk[:4]:
             plans.append([{'kind': 'h5_read', 'at_read': 1 + int(p * 12)}])
-    if lines:
+    if lines and Pm.get('n_faults', 0) >= 100 and pk[9] < 0.1:
+        # thorough, a tenth of the cases: stratified sweep over the line events of the write (<= 100 interrupt points)
+        k = max(lines // 100, 1)
+        for ln in range(1 + int(pk[10] * k), lines + 1, k):
+            plans.append([{'kind': 'interrupt', 'at_line': ln}])
+    elif lines:
         for p in pk[4:8]:
             plans.append([{'kind': 'interrupt', 'at_line': 1 + int(p * (lines - 1))}])
     nmax = Pm.get('n_faults', 6)
-    if len(plans) > nmax:
-        idxs = sorted(set(int(pk[i % len(pk)] * len(plans)) % len(plans) for i in range(nmax)))
-        plans = [plans[i] for i in idxs]
+    plans = C.pick_plans(plans, nmax, Pm['pick'])
     for plan in plans:
         w2 = dict(w, faults=plan)
         w2.pop('count_lines', None)
